@@ -305,7 +305,9 @@ pub fn run() -> Report {
         p.prev_index = x;
         cases.push(Case { coin: "bitcoin", verify: true, txs: vec![p], hdr: None, n_blocks: 3, label: format!("indexPrevOut={:#x}", x) });
     }
-    for v in [1u32, 2, 0x7fff_ffff] {
+    // (versions are 4-byte fields like the others: the upper half of their range is part of "every field equals the value
+    // serialized on disk ... integers decimal" - HEAD prints them as the unsigned numbers they are stored as)
+    for v in [1u32, 2, 0x7fff_ffff, 0x8000_0000, 0x8000_0002, 0x8265_0cc0, 0xffff_ffff] {
         cases.push(Case { coin: "bitcoin", verify: true, txs: vec![base.clone()], hdr: Some((v, 1_600_000_999, 0x1d00ffff, 7)), n_blocks: 3, label: format!("block_version={:#x}", v) });
         let mut p = base.clone();
         p.version = v;
